@@ -256,6 +256,11 @@ Proof. intros H B h Hh. assert (I : inv w) by (eapply run_inv; [apply inv_w0| |e
   destruct I as (G & _). eapply good_valid; eauto. Qed.
 Print Assumptions C01_reachable_valid.
 
+Lemma clock_dominates n acts w : run (w0 n) acts = Some w -> N.of_nat (length acts) + 1 <= jump_limit ->
+  forall rp h, In rp (reps w) -> In h (heads rp) -> edit_of (st w) h <= clk rp.
+Proof. intros H B rp h Hr Hh. assert (I : inv w) by (eapply run_inv; [apply inv_w0| |exact H]; cbn; lia).
+  destruct I as (_ & I & _). now apply I. Qed.
+
 (* non-vacuity: the C01 witness history (fork, 1 commit vs 3 commits, merge) is reachable and accepted *)
 Example witness_run :
   exists w, run (w0 2) [ACreate 0 5 1 [100]; AAdopt 1 0; AEdit 0 0 9 1 [101];
